@@ -52,7 +52,7 @@ def default_for(rnd, t):
     return '__required__'
 
 
-def gen_model(rnd, max_classes=4, toggles=True):
+def gen_model(rnd, max_classes=4, toggles=True, yattrs=False):
     """Class model for dumping: every optional parameter has a real default; unions avoid obviously ambiguous members."""
     specs = loadcase.gen_model(rnd, max_classes=max_classes, hooks=False)
     for s in specs:
@@ -111,6 +111,13 @@ def gen_model(rnd, max_classes=4, toggles=True):
                 if s.get('sweeten') == [('op', ('u2d',))]:
                     s.pop('sweeten')
                     s.pop('savorize', None)
+    if yattrs:
+        # classes with their own _yatiml_attributes(): the dump is whatever it returns (C06 only: such dumps need not load back)
+        for s in specs:
+            if s['kind'] == 'obj' and not s.get('bases') and not loadcase.all_subclasses(specs, s['name']) and \
+                    rnd.random() < (0.5 if s.get('extra') else 0.15):
+                s['yattrs'] = rnd.choice(['noextra', 'stored', 'reversed'])
+                s.pop('sweeten', None)
     return specs
 
 
@@ -204,6 +211,14 @@ def gen_value(rnd, model, t, depth=3):
 
 # ---------------------------------------------------------------- canonical forms
 
+def attrs_of(v, s):
+    """(name, value) pairs the representer starts from, and whether the extras are to be appended: the constructor parameters'
+    attributes then the extras -- or whatever the class's own _yatiml_attributes() returns (then no extras are added)."""
+    if s.get('yattrs'):
+        return list(v._yatiml_attributes().items()), False
+    return [(p['name'], getattr(v, p['name'])) for p in s['params']], bool(s.get('extra'))
+
+
 def dump_term(v, model):
     """Coq `value` term for a dump-side value: objects by ALL their constructor parameters' attributes."""
     if isinstance(v, bool):
@@ -232,9 +247,9 @@ def dump_term(v, model):
         return '(VDict [' + '; '.join(f'({dump_term(k, model)}, {dump_term(x, model)})' for k, x in v.items()) + '])'
     if hasattr(v, '_verif_kwargs'):
         s = loadcase.spec_of(model.specs, type(v).__name__)
-        attrs = [(p['name'], getattr(v, p['name'])) for p in s['params']]
+        attrs, with_extra = attrs_of(v, s)
         parts = [f'({coq_ustr(a)}, {dump_term(x, model)})' for a, x in attrs]
-        if s.get('extra'):
+        if with_extra:
             parts.append(f'({coq_ustr("_yatiml_extra")}, {dump_term(dict(v._yatiml_extra), model)})')
         return f'(VObj {coq_ustr(type(v).__name__)} [' + '; '.join(parts) + '])'
     raise TypeError(f'cannot encode {v!r}')
@@ -378,8 +393,9 @@ def projection(v, model):
         return {projection(k, model): projection(x, model) for k, x in v.items()}
     if hasattr(v, '_verif_kwargs'):
         s = loadcase.spec_of(model.specs, type(v).__name__)
-        out = {p['name']: projection(getattr(v, p['name']), model) for p in s['params']}
-        if s.get('extra'):
+        attrs, with_extra = attrs_of(v, s)
+        out = {a: projection(x, model) for a, x in attrs}
+        if with_extra:
             for k, x in v._yatiml_extra.items():
                 out[k] = projection(x, model)
         return out
@@ -404,8 +420,9 @@ def expected_node(v, model, registered):
         return None if any(a is None or b is None for a, b in ps) else yaml.MappingNode(T + 'map', ps)
     if hasattr(v, '_verif_kwargs'):
         s = loadcase.spec_of(model.specs, type(v).__name__)
-        ps = [(yaml.ScalarNode(T + 'str', p['name']), expected_node(getattr(v, p['name']), model, registered)) for p in s['params']]
-        if s.get('extra'):
+        attrs, with_extra = attrs_of(v, s)
+        ps = [(yaml.ScalarNode(T + 'str', a), expected_node(x, model, registered)) for a, x in attrs]
+        if with_extra:
             ps += [(expected_node(k, model, registered), expected_node(x, model, registered)) for k, x in v._yatiml_extra.items()]
         if any(a is None or b is None for a, b in ps):
             return None
@@ -444,9 +461,9 @@ def snapshot(v, memo=None):
     return (type(v).__name__, repr(v))
 
 
-def gen_cases(rnd, n_models, per_model, toggles=True):
+def gen_cases(rnd, n_models, per_model, toggles=True, yattrs=False):
     for _ in range(n_models):
-        specs = gen_model(rnd, toggles=toggles)
+        specs = gen_model(rnd, toggles=toggles, yattrs=yattrs)
         try:
             model = classgen.Model(specs)
         except Exception:       # noqa
